@@ -124,3 +124,44 @@ func genRecBody(r *rand.Rand, o SelOpts, depth int, path string, plant func(int,
 		return ssb.ExploreUnion(edgePart, genSel(r, o, depth+1, true, path+"/|", plant), genSel(r, o, depth+1, true, path+"/|", plant))
 	}
 }
+
+// GenChain generates a linear chain of n nested clauses of random kinds
+// (including bounded recursions) ending in inner.
+func GenChain(r *rand.Rand, n int, inner func(inRec bool) builder.SelectorSpec) datamodel.Node {
+	return genChain(r, n, false, inner).Node()
+}
+
+func genChain(r *rand.Rand, n int, inRec bool, inner func(inRec bool) builder.SelectorSpec) builder.SelectorSpec {
+	if n <= 0 {
+		return inner(inRec)
+	}
+	switch r.Intn(7) {
+	case 0:
+		return ssb.ExploreAll(genChain(r, n-1, inRec, inner))
+	case 1:
+		return ssb.ExploreIndex(int64(r.Intn(3)), genChain(r, n-1, inRec, inner))
+	case 2:
+		return ssb.ExploreRange(0, int64(1+r.Intn(3)), genChain(r, n-1, inRec, inner))
+	case 3:
+		return ssb.ExploreFields(func(efsb builder.ExploreFieldsSpecBuilder) {
+			efsb.Insert([]string{"a", "R", "l", ">"}[r.Intn(4)], genChain(r, n-1, inRec, inner))
+		})
+	case 4:
+		if r.Intn(2) == 0 {
+			return ssb.ExploreUnion(ssb.Matcher(), genChain(r, n-1, inRec, inner))
+		}
+		return ssb.ExploreUnion(genChain(r, n-1, inRec, inner), ssb.Matcher())
+	case 5:
+		return ssb.ExploreInterpretAs("unixfs", genChain(r, n-1, inRec, inner))
+	default:
+		return ssb.ExploreRecursive(selector.RecursionLimitDepth(int64(r.Intn(101))), ssb.ExploreUnion(ssb.ExploreAll(ssb.ExploreRecursiveEdge()), genChain(r, n-1, true, inner)))
+	}
+}
+
+// Recursion builds a minimal recursive clause with the given limit (-1 = none).
+func Recursion(limit int64) builder.SelectorSpec {
+	return ssb.ExploreRecursive(limitOf(limit), ssb.ExploreAll(ssb.ExploreRecursiveEdge()))
+}
+
+// MatcherSpec returns a matcher clause.
+func MatcherSpec() builder.SelectorSpec { return ssb.Matcher() }
